@@ -51,7 +51,7 @@ m = {
     ],
     'checks': checks,
     'not_applicable': na,
-    'notes': 'All checks are runtime monitors (see DESIGN.md). known_findings.txt lists triaged genuine defects (known:) and repaired ones (fixed:).',
+    'notes': 'All checks are runtime monitors (see DESIGN.md; §7 build log, §8 seeded changes). known_findings.txt lists triaged genuine defects (known:) and repaired ones (fixed:). Seeded realistic breaks with demonstrations are under seeded/<id>/; scripts/seeded.sh run <id> re-runs the listed checks against one of them in a scratch worktree.',
 }
 json.dump(m, open(os.path.join(ROOT, 'MANIFEST.json'), 'w'), indent=1)
 print('checks=%d not_applicable=%d' % (len(checks), len(na)))
